@@ -299,4 +299,21 @@ mutual
         | .ok (vs, bs, I) => .ok (v :: vs, bs, I)
 end
 
+/-! ## Histories on one long-lived interner
+
+The real interner keeps a DEAD weak entry under (type id, hash) after the last handle to a value is dropped,
+until the next vacuum.  `NInterner` holds live entries only: the model treats a dead entry as an absent one —
+which is what the code does (`intern` / `intern_unsized`: an entry whose `upgrade` fails is replaced by the fresh
+allocation; `get_from_hash`: `None`; C15's LTS models exactly these steps).  So after any history of encode /
+decode / drop / vacuum steps the decoder-side interner *is*, for the model, the interner that interning the
+values alive at that moment leaves behind: -/
+
+/-- the interner left behind by decoding (= interning every part of) the values of the list, one after the other -/
+def aliveInterner (env : Nat → NTy) (hash : Nat → NVal → Nat) (fuel : Nat) : List (NTy × NVal) → NInterner → Option NInterner
+  | [], I => some I
+  | (t, v) :: rest, I =>
+    match dec env hash fuel t (encodeTop env hash t v) I with
+    | .ok (_, _, I') => aliveInterner env hash fuel rest I'
+    | .error _ => none
+
 end QbiceVerif.Codec.Nested
